@@ -518,7 +518,7 @@ func checkVerifyJSONsFlow(c *fw.Ctx) {
 				ok = true
 			}
 		}
-		c.Check(ok, rule, "a key is requested for the latest timestamp it is needed at", c.P.Pos(pk.Pos()), "", "no max over AtTS")
+		c.Expect(ok, rule, "a key is requested for the latest timestamp it is needed at", c.P.Pos(pk.Pos()), "", "no max over AtTS was recognised")
 	}
 }
 
@@ -572,7 +572,7 @@ func checkFetchers(c *fw.Ctx) {
 		for _, call := range fw.CallsTo(fn, false, mapper) {
 			h, _ := fw.LoopOf(call.Block())
 			if h == nil {
-				c.Fail(rule, "notary responses are processed in a loop", c.P.Pos(call.Pos()), "no enclosing loop")
+				c.Undecided(rule, "notary responses are processed in a loop", "the acceptance of a response is not inside a loop of FetchKeys itself (a helper per response)")
 				continue
 			}
 			// no boolean state may be carried across iterations of the response loop
